@@ -9,8 +9,16 @@ CONSTANTS GIdents,   \* identifiers offered in generated messages
           EmitOneIn  \* 1: print every behaviour of full length; k: one in k (simulation mode)
 VARIABLE hist
 
-CacheObs == {[m |-> k[1], p |-> k[2], e |-> cache'[k]] : k \in {kk \in AllKeys : cache'[kk] # Undef}}
-Obs == [cache |-> CacheObs, cbs |-> cbs', waiting |-> waiting', now |-> now', last |-> last']
+(* compact observation: c cache (defined entries), b registered callbacks, w waiting, n clock, l last *)
+Ent(e) == <<e.val, e.ts, e.err.cls, e.err.text>>
+Cb(c) == <<c.level, c.kind, c.beh>>
+LastObs == IF last'.kind = "recv"
+           THEN [kind |-> "recv", key |-> last'.key, handled |-> last'.handled, released |-> last'.released,
+                 calls |-> {Cb(c) : c \in last'.calls}, view |-> Ent(last'.view)]
+           ELSE IF last'.kind = "register" THEN [kind |-> "register", cb |-> Cb(last'.cb), ikeys |-> last'.ikeys]
+           ELSE [kind |-> last'.kind]
+Obs == [c |-> {<<k[1], k[2]>> \o Ent(cache'[k]) : k \in {kk \in AllKeys : cache'[kk] # Undef}},
+        b |-> {Cb(c) : c \in cbs'}, w |-> waiting', n |-> now', l |-> LastObs]
 
 Det(msg) == /\ Cardinality(RelAllowed(msg, desc, waiting)) = 1
             /\ msg.tx \notin PrefTexts
@@ -46,8 +54,7 @@ GenDescs == {GenD1, GenD2}
 GenDescs3 == {GenD1, GenD2, GenD3}
 (* identifier classes: known, shorthand with / without default accessible, custom name,   *)
 (* command, unknown parameter, unknown module                                            *)
-GIdentsQ == {<<"m1", "value">>, <<"m1", "">>, <<"m2", "">>, <<"m2", "x">>, <<"m1", "cmd">>,
-             <<"m2", "target">>, <<"zz", "value">>}
+GIdentsQ == {<<"m1", "value">>, <<"m1", "">>, <<"m2", "">>, <<"m2", "x">>, <<"m1", "cmd">>, <<"zz", "value">>}
 GLevelsQ == {NodeL, <<"m1", "">>, <<"m1", "value">>, <<"m2", "x">>}
 GIdentsT == Idents
 GLevelsT == Levels
